@@ -7,6 +7,14 @@ ALL = ["C%02d" % i for i in range(1, 21)]
 SOLVER_NOTE = 'Trusted: Coq kernel; the solver model Model/Solver.v is hand-written and tied to ConstraintsSolverMixin/ObjectivesMaximizerMixin trace-exactly (same sequence of evaluate calls, same numpy draws, same outcome and final sequence) on recorded runs, with specification behaviour supplied as finite tables recorded from the implementation; the recorder wraps classes from outside (no source hooks) and interns specification objects by content; float-valued totals are compared trace-exactly only where binary64 arithmetic is exact (integer/dyadic scores and boosts), otherwise by the oracle with 1e-9 tolerance; numpy RandomState is an oracle.'
 
 CLAIMED = {
+    "C05": dict(
+        text="Hash-seed half, theorems (Coq): wherever the code iterates a Python set of variants the model takes a list in arbitrary order, and two choices carrying the same set in different orders behave identically for every oracle stream - sorted(variants) is canonical, random_variant, the constrain_sequence loop, the (distance, variant) order and the enumeration of all_variants, the variants drawn for random mutations, extract_varying_region (reference-independent). A static scan ties every set-iteration site of MutationChoice.py/MutationSpace.py to this audit. Runtime half (differential, partial): the same problem + numpy seed is solved in fresh subprocesses under several PYTHONHASHSEED values and after several in-process histories (reverse order, solved twice, the same specification objects first used in another problem) and outcomes compared.",
+        note="Partial: CPython's string hashing, numpy's generator and process-global state (lru_cache, keys added to user codon tables, marks on shared specification objects) cannot be exhibited by the Gallina model; that half is decided by differential runs only. Trusted: Coq kernel, the static scan (AST of the two files), subprocess launcher.",
+        technique="Coq proof (permutation invariance of every set-consuming operation) + static audit of set-iteration sites + differential runs across hash seeds and process histories", design="6/C05"),
+    "C07": dict(
+        text="Theorems (Coq): the synonymous-codon mutation space of EnforceTranslation (both strands, every generated genetic table without dual-use stop codons, every start-codon policy) contains exactly the sequences whose coding region translates to the wanted protein / whose first codon obeys the policy; the MaximizeCAI score is minus a sum of independent per-codon gaps and is 0 exactly when every codon is a most-frequent synonym. Together with C04 (exact space), C12/C15 (candidates never leave the space), C09 (codon-aligned localization is score-faithful), C06 (local exhaustive search exactly optimal) and C03 these give 'same protein, per-codon optimum'. The end-to-end statement (optimize() reaches it, outside untouched, HarmonizeRCA variant, named and user tables, both strands, offsets) is decided by the differential run against an independent per-codon table lookup: partial.",
+        note="Partial: no single end-to-end Coq theorem instantiating the abstract solver with the built-in classes; named codon tables are the sandbox shim's; log/ratio floats compared with 1e-9 tolerance.",
+        technique="Coq proof (restriction meaning for EnforceTranslation; per-codon decomposition of CAI) + vm_compute correspondence of the classes + end-to-end oracle on the implementation", design="6/C07"),
     "C04": dict(
         text="Theorems (Coq): the space built by from_optimization_problem's merge procedure is EXACT - a sequence of the right length is a member iff it satisfies every restriction choice (merge_with keeps exactly the variants compatible with ALL overlapping choices, extract_varying_region is exact), the space is a well-formed partition, 'unsolvable' (a choice left without variant) iff no sequence satisfies all restrictions, constrain_sequence moves the initial sequence into the space. The per-class meaning of restrict_nucleotides (AvoidChanges, EnforceTranslation both strands/all start-codon policies, EnforceSequence IUPAC, EnforceChoice, EnforceChanges, AvoidRareCodons) is modelled and tied by correspondence, and decided by brute force over all 4^L sequences (membership vs evaluate().passes) - that half is not a Coq theorem.",
         note="Trusted: Coq kernel; hand model of MutationSpace/MutationChoice tied by correspondence; start-codon policy is read as part of the documented predicate of EnforceTranslation (the space is stricter than evaluate(), DESIGN section 7).",
